@@ -666,3 +666,842 @@ void h_delegated_task(void) {
     VACUITY_END();
 }
 #endif
+
+#ifdef VACUITY
+#define VACUITY_CASE(c, m) do { if (c) __CPROVER_assert(0, "VACUITY: case reachable: " m); } while (0)
+#else
+#define VACUITY_CASE(c, m) ((void)0)
+#endif
+
+#if defined(MAILPOP) || defined(MAILPUSH)
+/* The mailbox: an intrusive multi-producer / single-consumer list.  A LINK is my_first or the next_in_mailbox of a proxy; my_last points at the link a pusher will fill next.
+   Numbering (fixed at the moment the function under proof starts; any list is isomorphic to it): proxies 0..n-1 in the order of their pushers' exchanges on my_last,
+   link 0 = my_first, link i+1 = next_in_mailbox of proxy i.  Link c < n holds proxy c, or still nullptr while the pusher of proxy c sits between its exchange and its
+   link store; link n is empty and my_last points at it.  Pushers only ever (a) append: n grows, my_last follows, (b) complete: an empty link c < n receives proxy c. */
+typedef struct proxy proxy; typedef struct cell_ *cell_t;
+struct outbox { cell_t my_last; };
+struct inbox { struct outbox *my_putter; };
+#define MB_NMAX ((size_t)1 << 12)
+#define PROXY(i) ((proxy *)(((uintptr_t)(i) + 1) << 4))
+#define PIDX(p) ((size_t)(((uintptr_t)(p)) >> 4) - 1)
+#define CELL(c) ((cell_t)((((uintptr_t)(c)) << 4) | 8))
+#define CIDX(c) ((size_t)(((uintptr_t)(c)) >> 4))
+#define CELL_FIRST(self) CELL(0)
+#define CELL_OF(p) CELL(PIDX(p) + 1)
+#endif
+
+#ifdef MAILPOP
+/* mail_inbox::pop -> mail_outbox::internal_pop, the single consumer, against any number of concurrent pushers (rely = the two pusher steps above, each justified by job mail.push).
+   The consumer's own writes are an overlay: it may rewrite ONE link (g_mod_cell). */
+static struct outbox S; static size_t g_cap, g_n, g_n0; static bool *g_fill; static isolation_type *g_iso; static bool g_mod, g_cas_ok; static cell_t g_mod_cell; static proxy *g_mod_val; size_t g_k; bool g_fill0k;
+#define PROXY_ISOLATION(p) (g_iso[PIDX(p)])
+#define CONTENT(ci) ((g_mod && CELL(ci) == g_mod_cell) ? g_mod_val : (((ci) < g_n && g_fill[ci]) ? PROXY(ci) : (proxy *)NULL))
+#define MB_INV (g_n < g_cap && (g_cas_ok || S.my_last == CELL(g_n)) && CIDX(S.my_last) <= g_n && CONTENT(CIDX(S.my_last)) == NULL)
+static void interfere(void) {
+    if (g_cas_ok) return;                      /* the popped proxy's own link left my_last without a pusher having obtained it: nobody can reach it any more; later pushes do not concern this pop */
+    size_t n1 = nondet_size_t(); __CPROVER_assume(n1 >= g_n && n1 < g_cap); g_n = n1; S.my_last = CELL(g_n);       /* pushers exchanged my_last */
+}
+static proxy *cell_load(cell_t c) {
+    interfere(); size_t ci = CIDX(c);
+    __CPROVER_assert(((uintptr_t)c & 15) == 8 && ci <= g_n, "C01.mail: the consumer reads only my_first and links of proxies that are in the mailbox");
+    if (ci < g_n && !g_fill[ci] && nondet_bool()) g_fill[ci] = true;                                              /* the pusher of proxy ci completes */
+    return CONTENT(ci);
+}
+static void cell_store(cell_t c, proxy *v) {
+    interfere(); size_t ci = CIDX(c);
+    __CPROVER_assert(!g_cas_ok, "C01.mail: nothing is written once my_last was handed back");
+    __CPROVER_assert(((uintptr_t)c & 15) == 8 && ci < g_n && g_fill[ci], "guarantee: the consumer rewrites only a link a pusher has completed - never the link a pusher is about to fill, never the link my_last points at");
+    __CPROVER_assert(!g_mod || c == g_mod_cell, "C01.mail: a pop rewrites one link only");
+    g_mod = true; g_mod_cell = c; g_mod_val = v;
+    __CPROVER_assert(MB_INV, "guarantee: the link my_last points at is empty, after a link store of the consumer");
+}
+static bool last_cas(cell_t *e, cell_t d) {
+    interfere();
+    if (S.my_last == *e) { S.my_last = d; g_cas_ok = true;
+        __CPROVER_assert(g_mod && d == g_mod_cell && g_mod_val == NULL, "C01.mail: my_last is handed back only to the link that pointed at the popped proxy, after that link was emptied");
+        __CPROVER_assert(MB_INV, "guarantee: the link my_last points at is empty, after the consumer's compare-exchange"); return true; }
+    *e = S.my_last; return false;
+}
+#define ATOMIC_LOAD_AT(site, c) cell_load(c)
+#define ATOMIC_STORE_AT(site, c, v) cell_store((c), (v))
+#define ATOMIC_CAS_AT(site, f, e, d) last_cas((e), (d))
+/* walk: curr is proxy i, read from link i (prev_ptr); every proxy before i carries another isolation tag; nothing written yet */
+#define LOOP_pop_1 __CPROVER_assigns(curr, prev_ptr, g_n, S.my_last, __CPROVER_object_whole(g_fill)) \
+  __CPROVER_loop_invariant(!g_mod && !g_cas_ok && MB_INV && g_n >= g_n0 && curr != NULL && ((uintptr_t)curr & 15) == 0 && PIDX(curr) < g_n && g_fill[PIDX(curr)] && prev_ptr == CELL(PIDX(curr)) \
+     && ((g_k < g_n0 && g_fill0k) ? g_fill[g_k] : 1)) \
+  __CPROVER_decreases(g_cap - PIDX(curr))
+/* wait for the pusher that exchanged my_last behind the popped proxy: its proxy exists (n > j+1), so it will be linked */
+#define LOOP_pop_2 __CPROVER_assigns(second, g_n, S.my_last, __CPROVER_object_whole(g_fill)) \
+  __CPROVER_loop_invariant(!g_cas_ok && g_mod && g_mod_cell == prev_ptr && g_mod_val == NULL && MB_INV && g_n >= g_n0 && curr != NULL && ((uintptr_t)curr & 15) == 0 && PIDX(curr) + 1 < g_n && g_fill[PIDX(curr)] && prev_ptr == CELL(PIDX(curr)) && ((g_k < g_n0 && g_fill0k) ? g_fill[g_k] : 1))
+#include "mail_pop.inc"
+size_t IN_n, IN_iso, IN_k;
+void h_mail_pop(void) {
+    g_cap = nondet_size_t(); __CPROVER_assume(g_cap >= 2 && g_cap <= MB_NMAX);
+    g_fill = malloc(g_cap * sizeof(bool)); g_iso = malloc(g_cap * sizeof(isolation_type)); __CPROVER_assume(g_fill && g_iso);
+    g_n0 = g_n = IN_n = nondet_size_t(); __CPROVER_assume(g_n < g_cap); S.my_last = CELL(g_n); g_mod = false; g_cas_ok = false; g_mod_cell = NULL; g_mod_val = NULL;
+    g_k = IN_k = nondet_size_t(); __CPROVER_assume(g_k < g_cap); g_fill0k = g_fill[g_k];
+    isolation_type iso = IN_iso = nondet_size_t(); struct inbox IB; IB.my_putter = &S;
+    proxy *r = inbox_pop(&IB, iso);
+    OBLIGATION(MB_INV, "C01.mail: when pop returns, my_last points at an empty link: the last link of the list, or my_first when the list is empty");
+    if (r == NULL) {
+        OBLIGATION(!g_mod && !g_cas_ok, "C01.mail: a pop that returns nothing leaves every link and my_last alone");
+    } else {
+        size_t j = PIDX(r);
+        OBLIGATION(((uintptr_t)r & 15) == 0 && j < g_n && g_fill[j], "C01.mail: the proxy returned is one that was linked into this mailbox");
+        OBLIGATION(iso == no_isolation || g_iso[j] == iso, "C01.iso: an isolated consumer takes only mail of its own isolation level");
+        OBLIGATION(g_mod && g_mod_cell == CELL(j), "C01.once: pop unlinks exactly the proxy it returns: the one link it rewrites is the link that pointed at it, every other proxy stays where it was, in order");
+        if (g_cas_ok) OBLIGATION(g_n == j + 1 && g_mod_val == NULL && S.my_last == CELL(j), "C01.mail: if the popped proxy was the last one, the link that pointed at it is empty and my_last points at that link (my_first when the mailbox is now empty)");
+        else OBLIGATION(j + 1 < g_n && g_mod_val == PROXY(j + 1) && g_fill[j + 1] && S.my_last == CELL(g_n), "C01.once: otherwise the link that pointed at the popped proxy now points at its successor - also when the successor was pushed while the pop was under way (it is never lost) - and my_last is left alone");
+        OBLIGATION(!(g_k < g_n0 && g_fill0k && g_k != j) || (g_fill[g_k] && !(g_mod && g_mod_cell == CELL(g_k))), "C01.once: every other proxy that was linked is still linked from the same link");
+        VACUITY_CASE(g_cas_ok && j > 0, "last proxy popped from behind skipped ones"); VACUITY_CASE(!g_cas_ok && g_n0 == j + 1, "pop of the only/last proxy racing with a push behind it");
+        VACUITY_CASE(!g_cas_ok && j > 2 && g_n0 > j + 1, "pop from the middle");
+    }
+    VACUITY_CASE(r == NULL && g_n0 > 1 && iso != no_isolation, "nothing eligible");
+    VACUITY_END();
+}
+#endif
+
+#ifdef MAILPUSH
+/* mail_outbox::push, one pusher against the consumer and any number of other pushers.  T is the proxy being pushed (not in any mailbox: precondition of push), CT its own link,
+   L the link the exchange returned.  Only the contents of CT and L matter. */
+static struct outbox S; static proxy *const T = PROXY(MB_NMAX + 5); static cell_t L; static proxy *ct_val, *l_val; static int phase, g_xchg, g_linkst; static cell_t g_last_at_xchg;
+#define CT CELL_OF(T)
+static void interfere(void) {
+    if (phase == 0) { S.my_last = (cell_t)nondet_ptr(); __CPROVER_assume(S.my_last != NULL && S.my_last != CT); }        /* a proxy that is not in the mailbox is referenced by nobody */
+    else if (phase == 1) { S.my_last = (cell_t)nondet_ptr(); __CPROVER_assume(S.my_last != NULL && S.my_last != L);       /* rely (mail.pop guarantee + this job for other pushers): nobody but me writes L while I am pending on it, and it cannot become my_last again before it was filled */
+        if (S.my_last != CT) ct_val = nondet_ptr(); }                                                                      /* a later pusher may link its proxy behind mine */
+    else { S.my_last = (cell_t)nondet_ptr(); ct_val = nondet_ptr(); l_val = nondet_ptr(); }
+}
+static void cell_store(cell_t c, proxy *v) {
+    interfere();
+    if (phase == 0) { __CPROVER_assert(c == CT, "guarantee: before its exchange a pusher writes only the link of its own, still private proxy"); ct_val = v; }
+    else if (phase == 1) { __CPROVER_assert(c == L, "C01.mail: the pushed proxy is linked behind the link the exchange returned, nowhere else");
+        __CPROVER_assert(l_val == NULL, "C01.mail: the link being filled was empty"); __CPROVER_assert(v == T, "C01.mail: the link receives the pushed proxy itself");
+        if (c == L) l_val = v; g_linkst++; phase = 2; }
+    else __CPROVER_assert(0, "C01.mail: the proxy is linked exactly once - no link is written after that");
+}
+static cell_t last_xchg(cell_t v) {
+    interfere(); __CPROVER_assert(phase == 0, "C01.mail: my_last is exchanged exactly once per push");
+    L = g_last_at_xchg = S.my_last; l_val = NULL /* invariant of the mailbox: the link my_last points at is empty */; S.my_last = v; g_xchg++; phase = 1;
+    __CPROVER_assert(v == CT, "C01.mail: the new last link is the pushed proxy's own link");
+    __CPROVER_assert(v != CT || ct_val == NULL, "guarantee: the link my_last points at is empty - the proxy's own link is cleared before the proxy is published");
+    return L;
+}
+#define ATOMIC_STORE_AT(site, c, v) cell_store((c), (v))
+#define ATOMIC_XCHG_AT(site, f, v) last_xchg(v)
+#include "mail_push.inc"
+void h_mail_push(void) {
+    phase = 0; g_xchg = g_linkst = 0; ct_val = nondet_ptr(); l_val = nondet_ptr(); L = NULL; S.my_last = (cell_t)nondet_ptr(); __CPROVER_assume(S.my_last != NULL && S.my_last != CT);
+    outbox_push(&S, T);
+    OBLIGATION(g_xchg == 1 && g_linkst == 1 && phase == 2, "C01.once: a push exchanges my_last once and links the proxy exactly once");
+    VACUITY_END();
+}
+#endif
+
+#ifdef GMT
+/* task_dispatcher::get_mailbox_task: the recipient's side of task-to-thread affinity.  mail_inbox::pop hands out a proxy at most once (job mail.pop: the proxy it returns is unlinked), so the
+   stub returns THE i-th proxy at its i-th call; extract_task<mailbox_bit> yields the task iff the pool side has not claimed it (job proxy.extract).  Facts for one arbitrary proxy g_k. */
+typedef struct task task; typedef struct proxy proxy;
+#define pool_bit ((intptr_t)1)
+#define mailbox_bit ((intptr_t)2)
+struct inbox { int d; };
+struct thread_data { unsigned short my_arena_index; };
+struct task_dispatcher { struct thread_data *m_thread_data; };
+typedef struct execution_data_ext { slot_id original_slot, affinity_slot; struct task_dispatcher *task_disp; } execution_data_ext;
+#define PROXY(i) ((proxy *)(((uintptr_t)(i) + 1) << 4))
+#define INNER(i) ((task *)((((uintptr_t)(i) + 1) << 4) | 4))
+#define PIDX(p) ((size_t)(((uintptr_t)(p)) >> 4) - 1)
+static struct inbox IB; size_t g_pops, g_k; int g_ext_k, g_del_k; bool g_has_k, g_last_has, g_last_ext, g_last_del, g_pop_null; isolation_type g_isoarg;
+static proxy *STUB_inbox_pop(struct inbox *ib, isolation_type iso) {
+    __CPROVER_assert(ib == &IB && iso == g_isoarg, "C01.mail: the dispatcher pops its own inbox, under the isolation level it was asked for");
+    __CPROVER_assert(g_pops == 0 || g_last_ext, "C01.once: a proxy taken out of the mailbox is never dropped: its task is extracted before the next one is popped");
+    __CPROVER_assert(g_pops == 0 || g_last_has || g_last_del, "C01.proxy: an emptied proxy taken from the mailbox is freed before the next one is popped");
+    if (g_pops >= ((size_t)1 << 40) || nondet_bool()) { g_pop_null = true; return NULL; }
+    g_last_ext = g_last_del = g_last_has = false; return PROXY(g_pops++);
+}
+static task *STUB_proxy_extract_task(proxy *tp, intptr_t from_bit) {
+    __CPROVER_assert(from_bit == mailbox_bit, "C01.proxy: a proxy that came out of the mailbox is claimed from the mailbox side (extract_task<mailbox_bit>)");
+    __CPROVER_assert(g_pops > 0 && tp == PROXY(g_pops - 1) && !g_last_ext, "C01.once: the task is extracted from the proxy just popped, once");
+    g_last_ext = true; g_last_has = nondet_bool(); if (PIDX(tp) == g_k) { g_ext_k++; g_has_k = g_last_has; }
+    return g_last_has ? INNER(PIDX(tp)) : NULL;
+}
+static void STUB_delete_proxy(proxy *tp) {
+    __CPROVER_assert(g_pops > 0 && tp == PROXY(g_pops - 1) && g_last_ext && !g_last_has, "C01.proxy: the mailbox side frees a proxy only after it found it empty (the pool side took the task and left the proxy to this side); a proxy that still carries its task for the pool side is never freed here");
+    __CPROVER_assert(!g_last_del, "C01.proxy: a proxy is freed at most once");
+    g_last_del = true; if (PIDX(tp) == g_k) g_del_k++;
+}
+#define LOOP_gmt_1 __CPROVER_assigns(tp, g_pops, g_pop_null, g_ext_k, g_del_k, g_has_k, g_last_has, g_last_ext, g_last_del) \
+  __CPROVER_loop_invariant(!g_pop_null && (g_pops == 0 || (g_last_ext && !g_last_has && g_last_del)) && (g_k < g_pops ? (g_ext_k == 1 && !g_has_k && g_del_k == 1) : (g_ext_k == 0 && g_del_k == 0)) \
+     && ed->original_slot == g_os0 && ed->affinity_slot == g_as0)
+slot_id g_os0, g_as0;
+#include "get_mailbox_task.inc"
+void h_get_mailbox_task(void) {
+    struct thread_data td; td.my_arena_index = nondet_ushort(); struct task_dispatcher disp; disp.m_thread_data = &td; execution_data_ext ed; ed.task_disp = &disp; g_os0 = ed.original_slot = nondet_ushort(); g_as0 = ed.affinity_slot = nondet_ushort();
+    g_pops = 0; g_k = nondet_size_t(); g_ext_k = g_del_k = 0; g_has_k = false; g_pop_null = false; g_last_ext = g_last_del = g_last_has = false; g_isoarg = nondet_size_t();
+    task *r = disp_get_mailbox_task(&disp, &IB, &ed, g_isoarg);
+    if (r != NULL) {
+        OBLIGATION(g_pops > 0 && r == INNER(g_pops - 1) && g_last_ext && g_last_has && !g_last_del, "C01.once: the task returned is the one the last popped proxy stood for, extracted once; that proxy is left for the pool side to free");
+        OBLIGATION(ed.affinity_slot == td.my_arena_index && ed.original_slot == (slot_id)-2, "C01.proxy: the affinity bookkeeping records that the task arrived by mail at this thread's slot");
+    } else {
+        OBLIGATION(g_pop_null, "C01.mail: get_mailbox_task gives up only when the mailbox has nothing (eligible) left");
+        OBLIGATION(ed.affinity_slot == g_as0 && ed.original_slot == g_os0, "C01.proxy: without a task the execution data is left alone");
+    }
+    if (g_k < g_pops) OBLIGATION(g_ext_k == 1 && (g_has_k ? (g_del_k == 0 && r == INNER(g_k)) : g_del_k == 1), "C01.once: every proxy popped was asked for its task exactly once; it either yielded the task that is returned, or was empty and freed exactly once - none is lost, none is freed while it still carries a task");
+    else OBLIGATION(g_ext_k == 0 && g_del_k == 0, "C01.mail: proxies that were not popped are not touched");
+    VACUITY_CASE(r != NULL && g_pops > 2, "task found behind emptied proxies"); VACUITY_CASE(r == NULL && g_pops > 1, "only emptied proxies");
+    VACUITY_END();
+}
+#endif
+
+#ifdef WAITCTX
+/* wait_context (through wait_context_vertex): the group-level count of outstanding work.  Rely/guarantee on the one word m_ref_count: `mine` = references this thread holds (is entitled to
+   release), `others` = references held by all other threads; others only reserve, or release what they hold.  User-visible counts are 32 bit: total below 2^32. */
+struct wait_context { uint64_t m_version_and_traits; uint64_t m_ref_count; };
+struct wait_context_vertex { struct wait_context m_wait; };
+static struct wait_context_vertex V; uint64_t mine, others, g_new, g_seen; int g_fa, g_ld, g_notify; uintptr_t g_notify_addr;
+#define WLIMIT (((uint64_t)1 << 32) - 1)
+#define WINV (V.m_wait.m_ref_count == mine + others && mine <= WLIMIT && others <= WLIMIT && mine + others <= WLIMIT)
+uint64_t g_room;   /* references this call is about to add: the total stays in the 32-bit range (assumption: the user-visible interface is 32 bit) */
+static void interfere(void) { others = nondet_u64(); V.m_wait.m_ref_count = mine + others; __CPROVER_assume(WINV && mine + others + g_room <= WLIMIT); }
+#define ATOMIC_FETCH_ADD_AT(site, f, v) ({ interfere(); uint64_t o_ = (f); (f) = o_ + (v); g_fa++; g_new = (f); mine = mine + (v); g_room = 0; \
+    __CPROVER_assert(WINV, "guarantee: the counter equals the number of outstanding references - it never goes negative and never leaves the 32-bit range, at " #site); o_; })
+#define ATOMIC_LOAD_AT(site, f) ({ interfere(); g_ld++; g_seen = (f); g_seen; })
+static void STUB_notify_waiters(uintptr_t a) { g_notify++; g_notify_addr = a; }
+#include "waitctx.inc"
+uint64_t IN_mine, IN_others; uint32_t IN_delta;
+static uint32_t world(void) { mine = IN_mine = nondet_u64(); others = IN_others = nondet_u64(); V.m_wait.m_ref_count = mine + others; __CPROVER_assume(WINV); g_fa = g_ld = g_notify = 0; g_notify_addr = 0; g_room = 0; return IN_delta = nondet_u32(); }
+void h_wait_release(void) {
+    uint32_t d = world(); __CPROVER_assume(d >= 1 && d <= mine);                       /* a thread releases only references it holds */
+    uint64_t m0 = mine; wcv_release(&V, d); interfere();
+    OBLIGATION(g_fa == 1 && mine == m0 - d, "C01.wait: release(d) takes exactly d references off the count, in one atomic step");
+    OBLIGATION(g_notify == (g_new == 0 ? 1 : 0) && (g_notify == 0 || g_notify_addr == (uintptr_t)&V.m_wait), "C01.wait: the waiters of this wait_context are notified by the release that brings the count to zero, once, and by no other release");
+    VACUITY_CASE(g_notify == 1, "last release"); VACUITY_CASE(g_notify == 0, "not the last release");
+    VACUITY_END();
+}
+void h_wait_reserve(void) {
+    uint32_t d = world(); __CPROVER_assume(d >= 1 && mine + others + d <= WLIMIT); g_room = d;
+    uint64_t m0 = mine; wcv_reserve(&V, d);
+    OBLIGATION(g_fa == 1 && mine == m0 + d, "C01.wait: reserve(d) adds exactly d references, in one atomic step");
+    OBLIGATION(g_notify == 0, "C01.wait: reserving work never wakes the waiters");
+    VACUITY_END();
+}
+void h_wait_continue(void) {
+    world(); uint64_t m0 = mine; bool r = wcv_continue_execution(&V);
+    OBLIGATION(g_ld == 1 && g_fa == 0 && mine == m0, "C01.wait: continue_execution only reads the count");
+    OBLIGATION(r == (g_seen != 0), "C01.wait: continue_execution() is false exactly when, at the moment it looked, all references had been released");
+    OBLIGATION(!(m0 > 0) || r, "C01.wait: a waiter never sees the work as finished while a reference (a submitted unit that has not finished) is outstanding");
+    VACUITY_END();
+}
+#endif
+
+#ifdef STREAM
+/* task_stream<accessor>: N lanes (std::deque + mutex each) and the population word (bit l set = lane l may hold a task).  Facts are stated for ONE arbitrary lane g_l; its deque is a window
+   [g_b, g_e) of a tape whose entry i is nullptr (look_specific leaves such holes) or THE i-th task (tasks in a lane are pairwise distinct by representation).
+   Lane invariant SQ_INV: whenever lane g_l's mutex is free, bit g_l of the population word is set exactly if the deque is non-empty.  Closed world (scan in spec.py): the population word is
+   written only by set_one_bit / clear_one_bit, called from try_push / try_pop / pop_specific - each proved here to call them for lane l only while holding lane l's mutex. */
+typedef struct task task; typedef uintptr_t population_t; typedef size_t lane_t, queue_t, qiter_t, mutex_ref;
+typedef struct { bool held; size_t lane; } scoped_lock_t;
+typedef struct lane_selector { unsigned *my_previous; } lane_selector_t;
+struct task_stream { population_t population; unsigned N; void *lanes; };
+#define one ((population_t)1)
+#define SQ_NMAX ((size_t)1 << 12)
+#define TASKPTR(i) ((task *)(((uintptr_t)(i) + 1) << 4))
+#define TIDX(p) ((size_t)(((uintptr_t)(p)) >> 4) - 1)
+static struct task_stream TS; static unsigned g_l; static bool g_me_holds /* I hold lane g_l's mutex (tracked critical section) */, g_cur_held; static size_t g_cur_lane /* the lane whose mutex I hold, if any */; static unsigned long g_acquires, g_popw;
+static size_t g_cap, g_b, g_e, g_b0, g_e0, g_k; static bool *g_null, g_null0k; static isolation_type *g_iso; static task *g_src; static int g_pushes; static size_t g_src_pos;
+#define BIT_L (((TS.population >> g_l) & 1) != 0)
+#define LIVE0(i) (g_b0 <= (i) && (i) < g_e0 && !g_null0k)                /* for i == g_k only */
+#define LIVE(i) (g_b <= (i) && (i) < g_e && (i) < g_cap && !g_null[i])
+#define LANE(self, i) ({ __CPROVER_assert((i) < (self)->N, "C01.stream: lane index below N"); (size_t)(i); })
+#define LANE_MUTEX(self, i) LANE(self, i)
+#define LANE_QUEUE(self, i) LANE(self, i)
+#define LANE_M(l) (l)
+#define LANE_Q(l) (l)
+#define TASK_ISOLATION(p) (g_iso[TIDX(p)])
+/* other threads: any bit of another lane may change at any time; bit g_l and lane g_l's deque only while I do not hold lane g_l's mutex */
+static void interfere(void) { population_t o = TS.population; TS.population = nondet_uintptr_t(); if (g_me_holds) __CPROVER_assume(((TS.population ^ o) & (one << g_l)) == 0); }
+#define ATOMIC_LOAD_AT(site, f) ({ interfere(); (f); })
+#define ATOMIC_FETCH_OR_AT(site, f, v) ({ interfere(); population_t o_ = (f); (f) = o_ | (v); g_popw++; __CPROVER_assert(((o_ ^ (f)) & ~(g_cur_held ? (one << g_cur_lane) : (population_t)0)) == 0, "guarantee: a population bit is written only for the lane whose mutex the writer holds"); o_; })
+#define ATOMIC_FETCH_AND_AT(site, f, v) ({ interfere(); population_t o_ = (f); (f) = o_ & (v); g_popw++; __CPROVER_assert(((o_ ^ (f)) & ~(g_cur_held ? (one << g_cur_lane) : (population_t)0)) == 0, "guarantee: a population bit is written only for the lane whose mutex the writer holds"); o_; })
+#include "stream_bits.inc"
+#endif
+
+#if defined(STREAM) && !defined(SQ_ABSTRACT)
+/* ---- the tracked deque of lane g_l ---- */
+#define QCHK(q) __CPROVER_assert((q) == g_l && g_me_holds, "C01.stream: a lane's deque is touched only under that lane's mutex")
+static bool q_empty(queue_t q) { QCHK(q); return g_b == g_e; }
+static task *q_entry(size_t i) { return g_null[i] ? (task *)NULL : (i == g_src_pos && g_pushes ? g_src : TASKPTR(i)); }
+static task *q_front(queue_t q) { QCHK(q); __CPROVER_assert(g_b < g_e, "C01.stream: front() of a non-empty deque"); return q_entry(g_b); }
+static void q_pop_front(queue_t q) { QCHK(q); __CPROVER_assert(g_b < g_e, "C01.stream: pop_front() of a non-empty deque"); g_b++; }
+static task *q_back(queue_t q) { QCHK(q); __CPROVER_assert(g_b < g_e, "C01.stream: back() of a non-empty deque"); return q_entry(g_e - 1); }
+static void q_pop_back(queue_t q) { QCHK(q); __CPROVER_assert(g_b < g_e, "C01.stream: pop_back() of a non-empty deque"); g_e--; }
+static void q_push_back(queue_t q, task *v) { QCHK(q); __CPROVER_assert(v == g_src && v != NULL, "C01.stream: the task appended is the task handed to push"); g_null[g_e] = false; g_src_pos = g_e; g_e++; g_pushes++; }
+static task *q_at(queue_t q, size_t i) { QCHK(q); __CPROVER_assert(g_b <= i && i < g_e, "C01.stream: an iterator is dereferenced only inside the deque"); return q_entry(i); }
+static void q_set(queue_t q, size_t i, task *v) { QCHK(q); __CPROVER_assert(g_b <= i && i < g_e, "C01.stream: an iterator is written through only inside the deque"); __CPROVER_assert(v == NULL, "C01.stream: only nullptr ever overwrites an entry"); g_null[i] = true; }
+#define Q_EMPTY(q) q_empty(q)
+#define Q_FRONT(q) q_front(q)
+#define Q_POP_FRONT(q) q_pop_front(q)
+#define Q_BACK(q) q_back(q)
+#define Q_POP_BACK(q) q_pop_back(q)
+#define Q_PUSH_BACK(q, v) q_push_back((q), (v))
+#define Q_END(q) ({ QCHK(q); g_e; })
+#define Q_BEGIN(q) ({ QCHK(q); g_b; })
+#define Q_AT(q, i) q_at((q), (i))
+#define Q_SET(q, i, v) q_set((q), (i), (v))
+/* the deque of lane g_l as found when its mutex is obtained: anything that satisfies the lane invariant */
+static void open_lane(void) { g_b0 = g_b = nondet_size_t(); g_e0 = g_e = nondet_size_t(); __CPROVER_assume(g_b <= g_e && g_e < g_cap); g_null0k = g_null[g_k]; g_me_holds = true; g_cur_held = true; g_cur_lane = g_l; g_acquires++;
+    TS.population = (TS.population & ~(one << g_l)) | ((population_t)(g_b < g_e) << g_l); }
+#define SCOPED_LOCK_INIT(L) ((L).held = false)
+#define SCOPED_TRY_ACQUIRE(L, m) ({ bool ok_ = nondet_bool(); __CPROVER_assert((m) == g_l && !(L).held && !g_me_holds, "C01.stream: the mutex tried is the one of the lane being worked on, once"); if (ok_) { (L).held = true; (L).lane = (m); open_lane(); } ok_; })
+#define SCOPED_LOCK_EXIT(L) do { if ((L).held) { __CPROVER_assert(BIT_L == (g_b < g_e), "C01.stream: when a lane's mutex is released its population bit is set exactly if the lane is non-empty - no task stays invisible, no empty lane stays advertised"); (L).held = false; g_me_holds = false; g_cur_held = false; } } while (0)
+static void mk_stream(void) {
+    unsigned s = nondet_unsigned(); __CPROVER_assume(s >= 1 && s <= 6); TS.N = 1u << s; TS.population = nondet_uintptr_t(); g_l = nondet_unsigned(); __CPROVER_assume(g_l < TS.N);
+    g_cap = nondet_size_t(); __CPROVER_assume(g_cap >= 2 && g_cap <= SQ_NMAX); g_null = malloc(g_cap * sizeof(bool)); g_iso = malloc(g_cap * sizeof(isolation_type)); __CPROVER_assume(g_null && g_iso);
+    g_k = nondet_size_t(); __CPROVER_assume(g_k < g_cap); g_me_holds = g_cur_held = false; g_acquires = g_popw = g_pushes = 0; g_src = (task *)(uintptr_t)((SQ_NMAX + 9) << 4); g_src_pos = 0; g_b = g_e = g_b0 = g_e0 = 0;
+}
+size_t IN_b, IN_e, IN_k, IN_iso;
+#endif
+
+#ifdef SQ_LOOK
+#define LOOP_look_specific_1 __CPROVER_assigns(curr) __CPROVER_loop_invariant(g_b == g_b0 && g_e == g_e0 && g_b0 < curr && curr <= g_e0 && g_null[g_k] == g_null0k) __CPROVER_decreases(curr)
+#include "stream_look_specific.inc"
+void h_look_specific(void) {
+    mk_stream(); open_lane(); __CPROVER_assume(g_b < g_e); IN_b = g_b; IN_e = g_e; IN_k = g_k;          /* callers: under the lane mutex, after !empty() */
+    isolation_type iso = IN_iso = nondet_size_t();
+    task *r = stream_look_specific(&TS, g_l, iso);
+    OBLIGATION(g_b >= g_b0 && g_e <= g_e0, "C01.stream: look_specific does not make the lane grow");
+    if (r == NULL) OBLIGATION(g_e == g_e0 && g_null[g_k] == g_null0k, "C01.stream: a search that finds nothing leaves the lane as it was");
+    else { size_t j = TIDX(r);
+        OBLIGATION(r == TASKPTR(j) && g_b0 <= j && j < g_e0 && (j != g_k || !g_null0k), "C01.stream: the task found is one that was in this lane");
+        OBLIGATION(g_iso[j] == iso, "C01.iso: look_specific hands out only a task of the isolation level asked for");
+        OBLIGATION(!(g_b <= j && j < g_e) || g_null[j], "C01.once: the task found is taken out of the lane (popped from the back, or overwritten with nullptr) - it cannot be found a second time");
+        OBLIGATION(g_k == j || !LIVE0(g_k) || LIVE(g_k), "C01.once: every other task of the lane is still there - nothing else is lost");
+    }
+    VACUITY_CASE(r != NULL && TIDX(r) + 1 < g_e0, "found in the middle"); VACUITY_CASE(r != NULL && TIDX(r) + 1 == g_e0, "found at the back");
+    VACUITY_END();
+}
+#endif
+
+#ifdef SQ_GETITEM
+#define LOOP_get_item_back_1 __CPROVER_assigns(result, g_e) __CPROVER_loop_invariant(g_b == g_b0 && g_b < g_e && g_e <= g_e0 && (g_e < g_e0 ? result == NULL : 1) && ((g_e <= g_k && g_k < g_e0) ? g_null0k : 1) && g_null[g_k] == g_null0k) __CPROVER_decreases(g_e)
+#include "stream_get_item_front.inc"
+#include "stream_get_item_back.inc"
+void h_get_item_front(void) {
+    mk_stream(); open_lane(); __CPROVER_assume(g_b < g_e); IN_b = g_b; IN_e = g_e; IN_k = g_k; bool nullfront = g_null[g_b];
+    task *r = front_get_item(g_l);
+    OBLIGATION(g_b >= g_b0 && g_e <= g_e0, "C01.stream: get_item does not make the lane grow");
+    if (r != NULL) { size_t j = TIDX(r);
+        OBLIGATION(r == TASKPTR(j) && g_b0 <= j && j < g_e0 && (j != g_k || !g_null0k), "C01.once: the task returned is one that was in this lane");
+        OBLIGATION(!LIVE(j), "C01.once: the task returned is no longer in the lane - it cannot be handed out a second time");
+        OBLIGATION(j == g_k || !LIVE0(g_k) || LIVE(g_k), "C01.once: every other task of the lane is still there - a removed task is never dropped");
+    } else OBLIGATION(!LIVE0(g_k) || LIVE(g_k), "C01.once: when nothing is returned no task was removed (only a nullptr hole)");
+    VACUITY_CASE(r != NULL, "task"); VACUITY_CASE(r == NULL && nullfront, "hole");
+    VACUITY_END();
+}
+void h_get_item_back(void) {
+    mk_stream(); open_lane(); __CPROVER_assume(g_b < g_e); IN_b = g_b; IN_e = g_e; IN_k = g_k;
+    task *r = backnn_get_item(g_l);
+    OBLIGATION(g_b >= g_b0 && g_e <= g_e0, "C01.stream: get_item does not make the lane grow");
+    if (r != NULL) { size_t j = TIDX(r);
+        OBLIGATION(r == TASKPTR(j) && g_b0 <= j && j < g_e0 && (j != g_k || !g_null0k), "C01.once: the task returned is one that was in this lane");
+        OBLIGATION(!LIVE(j), "C01.once: the task returned is no longer in the lane - it cannot be handed out a second time");
+        OBLIGATION(j == g_k || !LIVE0(g_k) || LIVE(g_k), "C01.once: every other entry popped on the way was a nullptr hole - no task is dropped");
+    } else OBLIGATION(!LIVE0(g_k), "C01.stream: the back accessor returns nothing only after the whole lane turned out to be nullptr holes (its callers rely on a non-null result while a task is there)");
+    VACUITY_CASE(r != NULL && g_e + 2 < g_e0, "task behind holes"); VACUITY_CASE(r == NULL, "only holes");
+    VACUITY_END();
+}
+#endif
+
+#ifdef SQ_TRYPUSH
+#include "stream_try_push.inc"
+void h_try_push(void) {
+    mk_stream(); IN_k = g_k;
+    bool r = stream_try_push(&TS, g_src, g_l); interfere();
+    OBLIGATION(!g_me_holds && g_acquires == (r ? 1 : 0), "C01.stream: try_push reports success exactly if it got the lane's mutex, and has released it when it returns");
+    if (r) { OBLIGATION(g_pushes == 1 && g_b == g_b0 && g_e == g_e0 + 1 && g_src_pos == g_e0 && !g_null[g_e0], "C01.once: a successful try_push appended the task exactly once, at the back of the lane it was given");
+             OBLIGATION(!LIVE0(g_k) || LIVE(g_k), "C01.once: pushing never removes a task"); }
+    else OBLIGATION(g_pushes == 0 && g_popw == 0, "C01.once: a failed try_push has put the task nowhere and touched no population bit - the caller may retry another lane without duplicating the task");
+    VACUITY_END();
+}
+#endif
+
+#if defined(SQ_TRYPOP_FRONT) || defined(SQ_TRYPOP_BACK)
+#ifdef SQ_TRYPOP_FRONT
+#include "stream_get_item_front.inc"
+#define ACCESSOR_get_item front_get_item
+#else
+#define LOOP_get_item_back_1 __CPROVER_assigns(result, g_e) __CPROVER_loop_invariant(g_me_holds && g_b == g_b0 && g_b < g_e && g_e <= g_e0 && (g_e < g_e0 ? result == NULL : 1) && ((g_e <= g_k && g_k < g_e0) ? g_null0k : 1) && g_null[g_k] == g_null0k) __CPROVER_decreases(g_e)
+#include "stream_get_item_back.inc"
+#define ACCESSOR_get_item backnn_get_item
+#endif
+#include "stream_try_pop.inc"
+void h_try_pop(void) {
+    mk_stream(); IN_k = g_k; bool bit0 = BIT_L;
+    task *r = stream_try_pop(&TS, g_l);
+    OBLIGATION(!g_me_holds && g_acquires <= 1, "C01.stream: try_pop has released the lane's mutex when it returns");
+    OBLIGATION(g_acquires == 1 || (r == NULL && g_popw == 0), "C01.stream: without the lane's mutex try_pop takes nothing and writes no population bit");
+    if (g_acquires == 1) {
+        if (r != NULL) { size_t j = TIDX(r);
+            OBLIGATION(r == TASKPTR(j) && g_b0 <= j && j < g_e0 && (j != g_k || !g_null0k), "C01.once: the task popped is one that was in this lane");
+            OBLIGATION(!(g_b <= j && j < g_e), "C01.once: the task popped is no longer in the lane - it cannot be popped a second time");
+            OBLIGATION(j == g_k || !LIVE0(g_k) || LIVE(g_k), "C01.once: every other task of the lane is still there - nothing is lost");
+        } else OBLIGATION(!LIVE0(g_k) || LIVE(g_k), "C01.once: a try_pop that returns nothing has removed no task (at most nullptr holes)");
+    }
+    VACUITY_CASE(r != NULL && g_b < g_e, "popped, lane still non-empty"); VACUITY_CASE(r != NULL && g_b == g_e, "popped the last task"); VACUITY_CASE(r == NULL && g_acquires == 1 && g_b0 < g_e0, "only a hole popped");
+    VACUITY_END();
+}
+#endif
+
+#if defined(STREAM) && defined(SQ_ABSTRACT)
+/* ---- the multi-lane functions: lanes other than g_l are abstract (their deque operations answer anything); of the critical sections on lane g_l ONE arbitrary one is tracked
+   (only the number of entries matters for the lane invariant); look_specific / try_push / try_pop are the contracts proved in the jobs stream.look_specific / stream.try_*. ---- */
+static size_t g_size; static bool g_tracked_done; static int g_takes; static task *g_taken; static isolation_type g_isoarg;
+#define SCOPED_LOCK_INIT(L) ((L).held = false)
+#define SCOPED_TRY_ACQUIRE(L, m) ({ bool ok_ = nondet_bool(); __CPROVER_assert(!(L).held && !g_cur_held, "C01.stream: one lane mutex at a time"); \
+    if (ok_) { (L).held = true; (L).lane = (m); g_cur_held = true; g_cur_lane = (m); g_acquires++; \
+        if ((m) == g_l && !g_tracked_done && nondet_bool()) { g_me_holds = true; g_size = nondet_size_t(); TS.population = (TS.population & ~(one << g_l)) | ((population_t)(g_size != 0) << g_l); } } ok_; })
+#define SCOPED_LOCK_EXIT(L) do { if ((L).held) { if (g_me_holds) { __CPROVER_assert(BIT_L == (g_size != 0), "C01.stream: when a lane's mutex is released its population bit is set exactly if the lane is non-empty - no task stays invisible, no empty lane stays advertised"); g_me_holds = false; g_tracked_done = true; } \
+    (L).held = false; g_cur_held = false; } } while (0)
+static bool q_empty(queue_t q) { __CPROVER_assert(g_cur_held && q == g_cur_lane, "C01.stream: a lane's deque is touched only under that lane's mutex"); return g_me_holds ? g_size == 0 : nondet_bool(); }
+#define Q_EMPTY(q) q_empty(q)
+static unsigned lane_select(lane_selector_t *sel, unsigned n) { __CPROVER_assert(n == TS.N, "C01.stream: the selector is asked for a lane out of N"); unsigned r = nondet_unsigned(); __CPROVER_assume(r < n); /* proved: job stream.lanes */ return r; }
+#define LANE_SELECT(sel, n) lane_select((sel), (n))
+static void mk_stream(void) {
+    unsigned s = nondet_unsigned(); __CPROVER_assume(s >= 1 && s <= 6); TS.N = 1u << s; TS.population = nondet_uintptr_t(); g_l = nondet_unsigned(); __CPROVER_assume(g_l < TS.N);
+    g_me_holds = g_cur_held = g_tracked_done = false; g_acquires = g_popw = g_takes = 0; g_taken = NULL; g_isoarg = nondet_size_t();
+}
+#endif
+
+#ifdef SQ_POPSPEC
+task *stream_look_specific(struct task_stream *self, queue_t q, isolation_type iso) {       /* contract: job stream.look_specific */
+    __CPROVER_assert(g_cur_held && q == g_cur_lane, "C01.stream: look_specific runs on the lane whose mutex is held");
+    __CPROVER_assert(iso == g_isoarg, "C01.iso: the lane is searched for the isolation level the caller asked for");
+    if (g_me_holds) __CPROVER_assert(g_size >= 1, "C01.stream: look_specific is called on a non-empty lane only");
+    __CPROVER_assert(g_takes == 0, "C01.once: no further lane is searched once a task was taken - the task in hand would be dropped");
+    if (nondet_bool()) return NULL;
+    g_takes++; g_taken = (task *)(((uintptr_t)g_takes + 1) << 4); if (g_me_holds && nondet_bool()) g_size--;          /* found at the back: popped; elsewhere: overwritten with nullptr */
+    return g_taken;
+}
+#define LOOP_pop_specific_1 __CPROVER_assigns(idx, result, TS.population, g_me_holds, g_cur_held, g_cur_lane, g_tracked_done, g_size, g_acquires, g_popw, g_takes, g_taken) \
+  __CPROVER_loop_invariant(result == NULL && g_takes == 0 && !g_cur_held && !g_me_holds && idx < TS.N)
+#include "stream_empty.inc"
+#include "stream_pop_specific.inc"
+unsigned IN_hint;
+void h_pop_specific(void) {
+    mk_stream(); unsigned hint = IN_hint = nondet_unsigned();
+    task *r = stream_pop_specific(&TS, &hint, g_isoarg);
+    OBLIGATION(!g_cur_held, "C01.stream: no lane mutex is held when pop_specific returns");
+    OBLIGATION(g_takes <= 1 && r == (g_takes == 1 ? g_taken : (task *)NULL), "C01.once: pop_specific takes at most one task out of the lanes, and the task it took is the one it returns - a task taken out of a lane is never dropped");
+    VACUITY_CASE(r != NULL && g_tracked_done, "taken from the tracked lane"); VACUITY_CASE(r == NULL && g_acquires > 2, "several lanes searched in vain");
+    VACUITY_END();
+}
+#endif
+
+#ifdef SQ_PUSH
+static task *const g_src = (task *)(uintptr_t)(9 << 4); static int g_pushes; static unsigned g_push_lane;
+bool stream_try_push(struct task_stream *self, task *source, unsigned lane_idx) {             /* contract: job stream.try_push */
+    __CPROVER_assert(lane_idx < self->N, "C01.stream: lane index below N"); __CPROVER_assert(source == g_src, "C01.stream: the task offered to a lane is the task handed to push");
+    __CPROVER_assert(g_pushes == 0, "C01.once: no lane is tried after one has accepted the task");
+    if (nondet_bool()) { g_pushes++; g_push_lane = lane_idx; return true; } return false;
+}
+#define LOOP_push_1 __CPROVER_assigns(lane, succeed, g_pushes, g_push_lane) __CPROVER_loop_invariant(g_pushes == 0)
+#include "stream_push.inc"
+void h_push(void) {
+    mk_stream(); g_pushes = 0; lane_selector_t sel;
+    stream_push(&TS, g_src, &sel);
+    OBLIGATION(g_pushes == 1 && g_push_lane < TS.N, "C01.once: push returns after exactly one lane accepted the task - the task is in exactly one lane");
+    VACUITY_END();
+}
+#endif
+
+#ifdef SQ_POP
+task *stream_try_pop(struct task_stream *self, unsigned lane_idx) {                            /* contract: jobs stream.try_pop.* */
+    __CPROVER_assert(lane_idx < self->N, "C01.stream: lane index below N");
+    __CPROVER_assert(g_takes == 0, "C01.once: no further lane is tried once a task was taken - the task in hand would be dropped");
+    if (nondet_bool()) return NULL;
+    g_takes++; g_taken = (task *)(((uintptr_t)g_takes + 1) << 4); return g_taken;
+}
+#define LOOP_pop_1 __CPROVER_assigns(lane, popped, TS.population, g_takes, g_taken) __CPROVER_loop_invariant(popped == NULL ? g_takes == 0 : (g_takes == 1 && popped == g_taken))
+#include "stream_empty.inc"
+#include "stream_pop.inc"
+void h_pop(void) {
+    mk_stream(); lane_selector_t sel;
+    task *r = stream_pop(&TS, &sel);
+    OBLIGATION(g_takes <= 1 && r == (g_takes == 1 ? g_taken : (task *)NULL), "C01.once: pop takes at most one task out of the lanes and returns exactly the task it took - a task taken out of a lane is never dropped");
+    VACUITY_CASE(r != NULL, "popped"); VACUITY_CASE(r == NULL, "stream seen empty");
+    VACUITY_END();
+}
+#endif
+
+#ifdef SQ_LANES
+static unsigned STUB_random_get(struct lane_selector *s) { return nondet_unsigned(); }
+static unsigned g_alloc_n, g_constructed, g_k2; static int g_ck; static char LANES_TOKEN;
+static void *STUB_allocate_lanes(unsigned n) { g_alloc_n = n; return &LANES_TOKEN; }
+static void STUB_construct_lane(void *lanes, unsigned i) { __CPROVER_assert(lanes == &LANES_TOKEN && i < g_alloc_n, "C01.stream: a lane is constructed inside the allocated array"); g_constructed++; if (i == g_k2) g_ck++; }
+#define LOOP_initialize_1 __CPROVER_assigns(i, g_constructed, g_ck) __CPROVER_loop_invariant(i <= self->N && g_constructed == i && (g_k2 < i ? g_ck == 1 : g_ck == 0)) __CPROVER_decreases(self->N - i)
+#include "stream_lanes.inc"
+unsigned IN_prev, IN_n, IN_lanes;
+void h_lane_selectors(void) {
+    unsigned s = nondet_unsigned(); __CPROVER_assume(s >= 1 && s <= 6); unsigned N = IN_n = 1u << s; unsigned prev = IN_prev = nondet_unsigned(); struct lane_selector sel; sel.my_previous = &prev;
+    unsigned which = nondet_unsigned() % 3;
+    unsigned r = which == 0 ? subsequent_lane_selector_call(&sel, N) : which == 1 ? preceding_lane_selector_call(&sel, N) : random_lane_selector_call(&sel, N);
+    OBLIGATION(r < N, "C01.stream: every lane selector returns a lane index below N (N a power of two)");
+    OBLIGATION(which == 2 || prev == r, "C01.stream: the sequential selectors remember the lane they returned");
+    VACUITY_END();
+}
+void h_stream_initialize(void) {
+    unsigned n = IN_lanes = nondet_unsigned(); g_constructed = 0; g_ck = 0; g_k2 = nondet_unsigned(); TS.population = 0;
+    stream_initialize(&TS, n);
+    OBLIGATION(TS.N >= 2 && TS.N <= 64 && (TS.N & (TS.N - 1)) == 0, "C01.stream: the number of lanes is a power of two between 2 and the width of the population word");
+    OBLIGATION(g_alloc_n == TS.N && g_constructed == TS.N && (g_k2 < TS.N ? g_ck == 1 : g_ck == 0), "C01.stream: exactly N lanes are allocated and each is constructed once");
+    VACUITY_END();
+}
+#endif
+
+#ifdef GLUE
+/* The glue between the user-level group and the scheduler.  A wait-tree vertex is a ghost event recorder: the order of reserve / body / release / free / spawn is what the property needs:
+   a unit handed to the group holds a reference of the group's wait context from before it becomes reachable by another thread until after its body has returned (or it was cancelled). */
+typedef struct task { struct tgc *context; isolation_type isolation; bool is_proxy; } task;
+typedef struct vertex_ { int reserved, released; } vertex; struct tgc { int d; }; struct soa { int pool; }; struct func { int d; }; struct execution_data { struct tgc *context; };
+struct wait_context_vertex { vertex v; };
+struct fntask { task base; uint64_t m_version_and_traits; vertex *m_wait_tree_vertex; struct tgc *m_ctx; struct soa m_allocator; struct func *m_func; };
+struct stacktask { task base; struct func *m_func; vertex *m_wait_tree_vertex; };
+struct task_group_base { struct wait_context_vertex m_wait_vertex; struct tgc m_context; };
+typedef enum { not_complete, complete, canceled } task_group_status;
+static vertex THREAD_VERTEX; static struct func FN; static struct task_group_base G; static struct fntask FT; static struct stacktask ST;
+int g_calls, g_freed, g_dtor, g_alloc, g_spawned, g_waits, g_reads, g_resets; bool g_cancelled_at_read, g_body_done_at_release, g_released_at_free, g_reserved_at_spawn, g_reserved_at_call, g_released_at_call, g_waited_at_read, g_read_at_reset;
+#define VERTEX_reserve(v) do { (v)->reserved++; } while (0)
+#define VERTEX_release(v) do { (v)->released++; g_body_done_at_release = (g_calls == 1); } while (0)
+#define CALL_FUNC(f) do { __CPROVER_assert((f) == &FN, "C01.once: the body called is the one that was submitted"); g_calls++; g_reserved_at_call = (THREAD_VERTEX.reserved == 1); g_released_at_call = (THREAD_VERTEX.released != 0); } while (0)
+void tht_dtor(struct fntask *self);
+#define DELETE_OBJECT_ED(a, obj, ed) do { __CPROVER_assert((a) == &(obj)->m_allocator, "C01.glue: the task is freed through its own allocator"); tht_dtor(obj); g_dtor++; g_released_at_free = ((obj)->m_wait_tree_vertex->released == 1); g_freed++; } while (0)
+#define DELETE_OBJECT(a, obj) DELETE_OBJECT_ED(a, obj, NULL)
+void tht_ctor(struct fntask *self, vertex *vertex_, struct tgc *ctx, struct soa *alloc);
+static task *new_function_task(struct soa *a, struct func *f, vertex *v, struct tgc *c) { g_alloc++; FT.m_func = f; tht_ctor(&FT, v, c, a); return &FT.base; }       /* new_object<function_task>: allocation, then the (sliced) base constructor; m_func copies f */
+#define NEW_function_task(a, f, v, c) new_function_task((a), (f), (v), (c))
+static vertex *STUB_get_thread_reference_vertex(struct wait_context_vertex *top) { __CPROVER_assert(top == &G.m_wait_vertex, "C01.wait: the task's reference is taken in the wait tree of THIS group"); return &THREAD_VERTEX; }   /* C14: wait.reference_vertex.* forwards the first reserve / last release to `top` */
+#define tgb_context(self) (&(self)->m_context)      /* task_group_context::actual_context(): the group's own or its proxied context */
+#define D1_spawn(t, c) do { __CPROVER_assert((t) == &FT.base && (c) == &G.m_context, "C01.glue: the task spawned is the one just prepared, in the group's context"); g_spawned++; g_reserved_at_spawn = (THREAD_VERTEX.reserved == 1 && THREAD_VERTEX.released == 0); } while (0)
+#define WCV_get_context(v) (v)
+#define STUB_d1_wait(w, c) do { __CPROVER_assert((w) == &G.m_wait_vertex && (c) == &G.m_context, "C01.wait: task_group::wait waits on the group's own wait context"); g_waits++; } while (0)
+static bool TGC_is_group_execution_cancelled(struct tgc *c) { g_reads++; g_waited_at_read = (g_waits >= 1); return g_cancelled_at_read = nondet_bool(); }
+#define TGC_reset(c) do { g_resets++; g_read_at_reset = (g_reads == 1); } while (0)
+#include "glue_group.inc"
+static void world(void) { THREAD_VERTEX.reserved = THREAD_VERTEX.released = 0; g_calls = g_freed = g_dtor = g_alloc = g_spawned = g_waits = g_reads = g_resets = 0; }
+void h_group_run(void) {
+    world(); tg_run(&G, &FN);
+    OBLIGATION(g_alloc == 1 && g_spawned == 1, "C01.once: run(f) creates one task and spawns it once");
+    OBLIGATION(g_reserved_at_spawn && THREAD_VERTEX.reserved == 1 && THREAD_VERTEX.released == 0, "C01.wait: the task holds its reference of the group's wait context before it is spawned (from then on another thread may run it), and still holds it when run() returns");
+    OBLIGATION(FT.m_wait_tree_vertex == &THREAD_VERTEX && FT.m_ctx == &G.m_context && FT.m_func == &FN && g_calls == 0, "C01.glue: the task remembers where to release, under which context it runs and what to call; run() does not call f itself");
+    VACUITY_END();
+}
+void h_function_task(void) {
+    world(); struct soa a; a.pool = nondet_int(); FT.m_func = &FN; tht_ctor(&FT, &THREAD_VERTEX, &G.m_context, &a); struct execution_data ed; ed.context = &G.m_context;
+    bool cancelled = nondet_bool(); task *next = cancelled ? ft_cancel(&FT, &ed) : ft_execute(&FT, &ed);
+    OBLIGATION(g_calls == (cancelled ? 0 : 1), "C01.once: executing the task calls the submitted body exactly once; cancelling it calls nothing");
+    OBLIGATION(cancelled || (g_reserved_at_call && !g_released_at_call), "C01.wait: the body runs while the task still holds its wait reference");
+    OBLIGATION(THREAD_VERTEX.reserved == 1 && THREAD_VERTEX.released == 1 && (cancelled || g_body_done_at_release), "C01.wait: the reference taken at creation is released exactly once, after the body has returned (or instead of it, when cancelled)");
+    OBLIGATION(g_freed == 1 && g_dtor == 1 && g_released_at_free, "C01.glue: the task object is destroyed exactly once; its destructor is what releases the reference");
+    OBLIGATION(next == NULL, "C01.glue: no follow-up task in this configuration");
+    VACUITY_END();
+}
+void h_stack_task(void) {
+    world(); fst_ctor(&ST, &FN, &THREAD_VERTEX);
+    OBLIGATION(THREAD_VERTEX.reserved == 1 && THREAD_VERTEX.released == 0, "C01.wait: run_and_wait's task holds a wait reference from its construction");
+    bool cancelled = nondet_bool(); task *next = cancelled ? fst_cancel(&ST) : fst_execute(&ST);
+    OBLIGATION(g_calls == (cancelled ? 0 : 1) && (cancelled || (g_reserved_at_call && !g_released_at_call)), "C01.once: the body is called exactly once when executed, never when cancelled, and while the reference is held");
+    OBLIGATION(THREAD_VERTEX.reserved == 1 && THREAD_VERTEX.released == 1 && (cancelled || g_body_done_at_release) && next == NULL, "C01.wait: the reference is released exactly once, after the body");
+    VACUITY_END();
+}
+void h_group_wait(void) {
+    world(); task_group_status r = tgb_wait(&G);
+    OBLIGATION(g_waits == 1, "C01.wait: task_group::wait enters the wait on the group's wait context exactly once");
+    OBLIGATION(!(g_reads >= 1) || g_waited_at_read, "C01.wait: whatever wait() reports about the group is read after the wait has returned");
+    VACUITY_END();
+}
+#endif
+
+#ifdef SPAWNGLUE
+/* r1::spawn (plain / with an affinity slot), spawn_and_notify, arena::enqueue_task: what becomes reachable by other threads, and in which state */
+typedef struct task { struct tgc *context; isolation_type isolation; bool is_proxy; } task; struct tgc { int d; }; struct soa { int pool; };
+#define pool_bit ((intptr_t)1)
+#define mailbox_bit ((intptr_t)2)
+#define location_mask (pool_bit | mailbox_bit)
+#define no_slot ((slot_id)0xffff)
+struct outbox { int d; }; struct stream { int d; }; struct aslot { int d; }; struct rnd { int d; };
+struct task_proxy { task base; intptr_t task_and_tag; struct outbox *outbox; slot_id slot; struct soa allocator; };
+struct task_dispatcher; typedef struct execution_data_ext { struct tgc *context; isolation_type isolation; struct task_dispatcher *task_disp; } execution_data_ext;
+struct task_dispatcher { execution_data_ext m_execute_data_ext; };
+struct arena { unsigned my_num_slots; struct stream my_fifo_task_stream; };
+struct thread_data { struct arena *my_arena; struct aslot *my_arena_slot; struct task_dispatcher *my_task_dispatcher; unsigned short my_arena_index; struct rnd my_random; };
+enum { work_spawned, work_enqueued, wakeup };
+static struct arena A; static struct aslot SLOT; static struct task_dispatcher DISP; static struct thread_data TD; static struct tgc CTX; static task T; static struct task_proxy PX; static struct outbox BOXES[4];
+int g_bind, g_spawned, g_mailed, g_adv, g_enq, g_px; task *g_spawned_what; bool g_ready_at_spawn, g_ready_at_mail, g_ready_at_enq, g_adv_after, g_bound_first; int g_adv_kind; slot_id g_mail_id;
+#define TASK_CONTEXT(t) ((t)->context)
+#define TASK_ISOLATION(t) ((t)->isolation)
+#define TASK_set_proxy_trait(t) ((t)->is_proxy = true)
+static struct thread_data *STUB_get_thread_data(void) { return &TD; }
+static void STUB_bind_to(struct tgc *c, struct thread_data *td) { __CPROVER_assert(c == &CTX && td == &TD, "C01.glue: the group's context is bound on the calling thread"); g_bind++; g_bound_first = (g_spawned == 0 && g_mailed == 0 && g_enq == 0); }
+static struct task_proxy *NEW_task_proxy(struct soa *a, execution_data_ext *ed) { g_px++; PX.base.is_proxy = false; PX.task_and_tag = nondet_intptr_t(); PX.outbox = NULL; return &PX; }
+static struct outbox *ARENA_mailbox(struct arena *a, slot_id id) { __CPROVER_assert(a == &A && id < a->my_num_slots, "C01.mail: the mailbox addressed exists (slot id below the arena's slot count)"); g_mail_id = id; return &BOXES[id % 4]; }
+#define TASK_READY(t) ((t)->context == &CTX && (t)->isolation == DISP.m_execute_data_ext.isolation)
+#define PROXY_READY (PX.base.is_proxy && PX.task_and_tag == ((intptr_t)&T | location_mask) && PX.base.isolation == DISP.m_execute_data_ext.isolation && PX.outbox == &BOXES[g_mail_id % 4] && PX.slot == g_mail_id)
+#define OUTBOX_push(ob, p) do { __CPROVER_assert((p) == &PX && (ob) == PX.outbox, "C01.mail: the proxy is mailed to the outbox it remembers"); g_mailed++; g_ready_at_mail = PROXY_READY && TASK_READY(&T); } while (0)
+#define SLOT_spawn(s, t) do { __CPROVER_assert((s) == &SLOT, "C01.glue: the task goes into the calling thread's own pool"); g_spawned++; g_spawned_what = (t); g_ready_at_spawn = TASK_READY(&T) && ((t) == &T || ((t) == &PX.base && PROXY_READY)); } while (0)
+#define ARENA_advertise_new_work(a, k) do { __CPROVER_assert((a) == &A, "C01.glue: new work is advertised in the arena it was put into"); g_adv++; g_adv_kind = (k); if (g_spawned + g_enq == 1) g_adv_after = true; } while (0)
+#define STREAM_push(st, t, r) do { __CPROVER_assert((st) == &A.my_fifo_task_stream && (t) == &T, "C01.glue: the task is enqueued into the arena's FIFO stream"); g_enq++; g_ready_at_enq = ((t)->context == &CTX && (t)->isolation == no_isolation); } while (0)
+#include "glue_spawn.inc"
+slot_id IN_id; unsigned IN_slots; unsigned short IN_me;
+static void world(void) { TD.my_arena = &A; TD.my_arena_slot = &SLOT; TD.my_task_dispatcher = &DISP; TD.my_arena_index = IN_me = nondet_ushort(); A.my_num_slots = IN_slots = nondet_unsigned(); __CPROVER_assume(A.my_num_slots >= 1 && TD.my_arena_index < A.my_num_slots);
+    DISP.m_execute_data_ext.isolation = nondet_size_t(); T.context = NULL; T.isolation = nondet_size_t(); T.is_proxy = false; g_bind = g_spawned = g_mailed = g_adv = g_enq = g_px = 0; g_spawned_what = NULL; g_adv_after = false; }
+void h_spawn(void) {
+    world(); bool aff = nondet_bool(); slot_id id = IN_id = nondet_ushort(); if (aff) r1_spawn_aff(&T, &CTX, id); else r1_spawn(&T, &CTX);
+    OBLIGATION(g_bind == 1 && g_bound_first, "C01.glue: the context is bound before the task becomes reachable");
+    OBLIGATION(g_spawned == 1 && g_ready_at_spawn, "C01.once: spawn puts exactly one entry for the task into the caller's pool - the task itself or one proxy that stands for it - after its context and isolation tag (and the proxy's task word, both location bits set) were written");
+    OBLIGATION(g_spawned_what == &T ? (g_mailed == 0) : (g_spawned_what == &PX.base && g_px == 1 && g_mailed == 1 && g_ready_at_mail),
+               "C01.once: the task is mailed only through the one proxy that is also in the pool: mailed exactly once, fully initialised (task word with both location bits, outbox and slot id consistent), to an existing mailbox; a plain spawn mails nothing");
+    OBLIGATION(g_adv >= 1 && g_adv_after, "C01.glue: the new work is advertised to the arena after the task is in the pool");
+    VACUITY_CASE(g_mailed == 1, "mailed"); VACUITY_CASE(aff && g_mailed == 0, "affinity ignored");
+    VACUITY_END();
+}
+void h_enqueue(void) {
+    world(); arena_enqueue_task(&A, &T, &CTX, &TD);
+    OBLIGATION(g_bind == 1 && g_bound_first && g_enq == 1 && g_ready_at_enq && g_spawned == 0, "C01.once: enqueue puts the task into the arena's FIFO stream exactly once, with its context captured and no isolation tag, and nowhere else");
+    OBLIGATION(g_adv >= 1 && g_adv_after, "C01.glue: the enqueued work is advertised to the arena after the push (nobody waits for an enqueued task: without this it may never be run)");
+    VACUITY_END();
+}
+#endif
+
+#ifdef TASKMEM
+/* The memory of a task_group task.  A task object is obtained with small_object_allocator::new_object<Type> and given back with delete_object<Type>; both pass sizeof(Type) down to the
+   per-thread small object pool, which treats requests of at most small_object_size bytes as "small objects" (recycled through its free lists and COUNTED: the pool is destroyed when its
+   owner thread has exited and its count of live small objects is zero) and larger ones as plain allocations (not counted).  The count stays truthful only if an object is given back under
+   the size class it was obtained with.  Which Type each site binds is read off the source by the extraction (SIZEOF_AT_NEW: prepare_task's new_object<...>; SIZEOF_AT_DELETE: the class whose
+   finalize() calls delete_object(this)).  Free lists have arbitrary length: a real first node and an opaque tail of ghost length. */
+typedef struct small_object { struct small_object *next; } small_object;
+struct pool { small_object *m_private_list; int64_t m_private_counter; small_object *m_public_list; int64_t m_public_counter; };
+struct soa { struct pool *m_pool; };
+struct thread_data { struct pool *my_small_object_pool; };
+typedef struct execution_data_ext { struct thread_data *td; } execution_data_ext;
+static struct pool P, OTHERPOOL; static struct thread_data TD_ALLOC, TD_FREE; static small_object A1, B1; static char OP1c, OP2c; static long g_t1, g_t2;
+#define OP1 ((small_object *)&OP1c)
+#define OP2 ((small_object *)&OP2c)
+#define dead_public_list ((small_object *)(uintptr_t)1)
+static struct thread_data *g_cur_td;
+static struct thread_data *STUB_get_thread_data(void) { return g_cur_td; }
+#define ED_thread_data(ed) ((ed)->td)
+static size_t g_fresh_bytes; static int g_fresh, g_freed_plain, g_pool_destroyed; static void *g_obj;
+static void *STUB_cache_aligned_allocate(size_t n) { g_fresh++; g_fresh_bytes = n; void *p = malloc(n); __CPROVER_assume(p != NULL); return p; }
+static void STUB_cache_aligned_deallocate(void *p) { g_freed_plain++; }
+#define NEW_small_object(p) ({ small_object *o_ = (small_object *)(p); o_->next = NULL; o_; })
+#define CONSTRUCT_AT(p) (p)
+#define DESTROY_OBJECT(o) ((void)0)
+#define DESTROY_POOL(p) (g_pool_destroyed++)
+#define ATOMIC_LOAD(x) (x)
+#define ATOMIC_XCHG(x, v) ({ small_object *o_ = (x); (x) = (v); o_; })
+#define ATOMIC_CAS(x, e, d) ((x) == *(e) ? ((x) = (d), true) : (*(e) = (x), false))
+#define ATOMIC_PREINC(x) (++(x))
+#define LOOP_deallocate_impl_1
+size_t SIZEOF_task_handle_task, SIZEOF_function_task;
+#include "pool.inc"
+static long list_len(small_object *p) { long n = 0; for (int i = 0; i < 5 && p != NULL; ++i) { if (p == OP1) return n + g_t1; if (p == OP2) return n + g_t2; n++; p = p->next; } return n; }
+size_t IN_sizeof_base, IN_sizeof_task; long IN_live;
+void h_task_memory(void) {
+    /* sizes: the derived class is at least as big as its base; the object must hold a list node */
+    SIZEOF_task_handle_task = IN_sizeof_base = nondet_size_t(); SIZEOF_function_task = IN_sizeof_task = nondet_size_t();
+    __CPROVER_assume(SIZEOF_task_handle_task >= sizeof(small_object) && SIZEOF_function_task >= SIZEOF_task_handle_task && SIZEOF_function_task <= 4096);
+#ifdef TASKMEM_SMALL
+    __CPROVER_assume(SIZEOF_function_task <= small_object_size);          /* domain: the whole task (base + functor) is a small object */
+#else
+    __CPROVER_assume(SIZEOF_function_task > small_object_size);           /* domain: a functor so big that the task is no small object */
+#endif
+    /* the allocating thread's pool: free lists of any length, any number of small objects alive elsewhere */
+    g_t1 = nondet_long(); g_t2 = nondet_long(); __CPROVER_assume(g_t1 >= 1 && g_t1 < (1L << 40) && g_t2 >= 1 && g_t2 < (1L << 40));
+    A1.next = nondet_bool() ? OP1 : NULL; B1.next = nondet_bool() ? OP2 : NULL; P.m_private_list = nondet_bool() ? &A1 : NULL; P.m_public_list = nondet_bool() ? &B1 : NULL;
+    long live0 = IN_live = nondet_long(); __CPROVER_assume(live0 >= 0 && live0 < (1L << 40)); P.m_private_counter = list_len(P.m_private_list) + list_len(P.m_public_list) + live0; P.m_public_counter = 0;
+    TD_ALLOC.my_small_object_pool = &P; bool same_thread = nondet_bool(); TD_FREE.my_small_object_pool = same_thread ? &P : &OTHERPOOL; g_fresh = g_freed_plain = g_pool_destroyed = 0;
+    /* prepare_task: alloc.new_object<TYPE_AT_NEW>(...) on the submitting thread */
+    struct soa alloc; alloc.m_pool = NULL; g_cur_td = &TD_ALLOC;
+    void *obj = soa_new_object(&alloc, SIZEOF_AT_NEW);
+    OBLIGATION(alloc.m_pool == &P && obj != NULL, "C01.glue: the task remembers the pool it was allocated from");
+    long live1 = P.m_private_counter - list_len(P.m_private_list) - list_len(P.m_public_list);
+    /* ... the task runs (on this or on another thread) and finalizes: m_allocator.delete_object<TYPE_AT_DELETE>(this[, ed]) */
+    execution_data_ext ed; ed.td = &TD_FREE; g_cur_td = &TD_FREE;
+    if (nondet_bool()) soa_delete_object_ed(&alloc, obj, SIZEOF_AT_DELETE, &ed); else soa_delete_object(&alloc, obj, SIZEOF_AT_DELETE);
+    long live2 = P.m_private_counter - list_len(P.m_private_list) - list_len(P.m_public_list);
+    OBLIGATION(live2 == live0, "C01.glue: after a task object was allocated and freed, the pool's count of live small objects is what it was before (it is given back under the size class it was obtained with) - otherwise the pool is destroyed while tasks allocated from it are still alive, or never");
+    OBLIGATION(live1 == live0 + (SIZEOF_AT_NEW <= small_object_size ? 1 : 0) && g_pool_destroyed == 0, "C01.glue: while the task is alive the pool counts it exactly if it is a small object; a live pool is not destroyed");
+    VACUITY_END();
+}
+#endif
+
+#if defined(DISP_ROS) || defined(DISP_MAIN) || defined(DISP_SRC)
+/* The dispatch loop.  Every source of tasks (bypass, critical stream, own pool, mailbox, resume / fifo stream, stealing, self recall) is a stub with the contract proved for it elsewhere:
+   it hands out a task at most once.  What is proved here is the bookkeeping BETWEEN the sources: a task taken out of any container is "in hand" (g_hand) until it is executed or cancelled;
+   while a task is in hand no other is fetched (it would be overwritten and lost); the loop is left only without a task in hand and only because the waiter said so. */
+typedef struct task task; struct tgc { int d; }; struct stream { int d; }; struct inbox { bool idle; }; struct aslot { unsigned hint_for_resume_stream, hint_for_fifo_stream; task **task_pool; }; struct rnd { int d; };
+struct arena { struct stream my_resume_task_stream, my_fifo_task_stream; unsigned my_limit; };
+struct thread_data { struct arena *my_arena; struct aslot *my_arena_slot; unsigned short my_arena_index; struct inbox my_inbox; struct rnd my_random; };
+struct task_dispatcher; typedef struct execution_data_ext { struct tgc *context; slot_id original_slot, affinity_slot; struct task_dispatcher *task_disp; isolation_type isolation; } execution_data_ext;
+struct task_dispatcher { struct thread_data *m_thread_data; execution_data_ext m_execute_data_ext; };
+struct wait_context { int d; }; typedef struct external_waiter { struct wait_context *my_wait_ctx; } waiter_t;
+struct dl_guard { struct { bool fifo_tasks_allowed, outermost; } old_properties; };
+#define no_slot ((slot_id)0xffff)
+static struct arena A; static struct aslot SLOT; static struct thread_data TD; static struct task_dispatcher DISP; static struct wait_context WC; static waiter_t WAITER; static struct tgc CTXS[2];
+/* ghost */
+static task *g_hand; static struct tgc *g_hand_ctx; static isolation_type g_hand_iso, g_level_iso; static bool g_hand_bypass, g_hand_resume, g_waiter_stop, g_cancel_read, g_cancel_read_valid; static unsigned long g_seq, g_obtained, g_dispatched, g_respawned, g_executed, g_cancelled;
+#ifdef DISP_SRC
+struct task_proxy { slot_id slot; }; static struct task_proxy TOKMEM[8];
+#define TOK(n) ((task *)&TOKMEM[(n) & 7])                 /* real memory: tp->slot is read through the stolen pointer */
+#else
+#define TOK(n) ((task *)((((uintptr_t)(n) & 0xffffffffffUL) + 1) << 4))      /* never NULL; distinct for 2^40 consecutive tasks */
+#endif
+/* a container (or a finished task's bypass pointer) hands out a task: at most one is in hand at any time */
+static task *obtain(bool may_fail, bool bypass, bool respects_isolation) {
+    __CPROVER_assert(g_hand == NULL, "C01.once: no task is fetched from any source while another one is in hand - the task in hand would be overwritten and never run");
+    if (may_fail && nondet_bool()) return NULL;
+    g_seq++; g_obtained++; g_hand = TOK(g_seq); g_hand_ctx = &CTXS[nondet_bool()]; g_hand_bypass = bypass; g_hand_resume = false; g_waiter_stop = false;      /* with a task in hand the last word is not "stop" */
+    g_hand_iso = nondet_size_t(); if (respects_isolation && g_level_iso != no_isolation) g_hand_iso = g_level_iso;          /* pool.get_task / mail.pop / pool.steal_task / stream.look_specific: isolation respected */
+    return g_hand;
+}
+#define TASK_CONTEXT(t) (((t) == g_hand) ? g_hand_ctx : (struct tgc *)nondet_ptr())
+#define TASK_ISOLATION(t) (((t) == g_hand) ? g_hand_iso : nondet_size_t())
+#define TASK_is_resume_task(t) (((t) == g_hand) ? g_hand_resume : nondet_bool())
+static bool WAITCTX_continue_execution(struct wait_context *w) { __CPROVER_assert(w == &WC, "C01.wait: the waiter looks at the wait context it was created for"); bool go = nondet_bool(); g_waiter_stop = !go; return go; }    /* wait.continue_execution: false only when no reference is outstanding */
+static task *STUB_get_self_recall_task(struct aslot *s) { task *r = obtain(true, false, false); if (r) g_hand_resume = true; return r; }
+static task *disp_get_critical_task(struct task_dispatcher *d, task *t, execution_data_ext *ed, isolation_type iso, bool allowed) {   /* C16 isolation.get_critical_task: a displaced task is re-spawned exactly once */
+    __CPROVER_assert(t == g_hand, "C01.once: the task passed on is the task in hand");
+    __CPROVER_assert(t == NULL || g_hand_bypass || g_hand_resume || ed->context == g_hand_ctx, "C01.once: a task that a critical task may displace is re-spawned under its own context");
+    if (allowed && nondet_bool()) { if (t != NULL) { g_respawned++; g_hand = NULL; } task *c = obtain(false, false, true); ed->context = g_hand_ctx; ed->isolation = g_hand_iso; return c; }
+    return t;
+}
+#define OBSERVERS_notify_entry(a, tls) ((void)0)
+#define WAITER_reset_wait(w) ((void)0)
+#define WAITER_pause(w, s) ((void)0)
+#define INBOX_set_is_idle(ib, v) ((ib)->idle = (v))
+#define INBOX_is_idle_state(ib, v) ((ib)->idle == (v))
+static void world(void) { TD.my_arena = &A; TD.my_arena_slot = &SLOT; TD.my_arena_index = nondet_ushort(); DISP.m_thread_data = &TD; WAITER.my_wait_ctx = &WC; g_hand = NULL; g_waiter_stop = false; g_seq = nondet_ulong();
+    g_obtained = g_dispatched = g_respawned = g_executed = g_cancelled = 0; g_level_iso = nondet_size_t(); g_cancel_read_valid = false; TD.my_inbox.idle = nondet_bool(); }
+#endif
+
+#ifdef DISP_ROS
+static bool disp_can_steal(struct task_dispatcher *d) { return nondet_bool(); }
+static bool g_fifo_allowed; static unsigned long g_fifo_asked;
+static task *disp_get_inbox_or_critical_task(struct task_dispatcher *d, execution_data_ext *ed, struct inbox *ib, isolation_type iso, bool ca) { __CPROVER_assert(ib == &TD.my_inbox && iso == g_level_iso, "C01.mail: the thread's own inbox is searched, under the isolation level of this dispatch level"); return obtain(true, false, true); }
+static task *disp_get_stream_or_critical_task(struct task_dispatcher *d, execution_data_ext *ed, struct arena *a, struct stream *s, unsigned *hint, isolation_type iso, bool ca) {
+    __CPROVER_assert(a == &A && (s == &A.my_resume_task_stream || s == &A.my_fifo_task_stream), "C01.stream: the arena's own streams are searched");
+    if (s == &A.my_fifo_task_stream) { g_fifo_asked++; __CPROVER_assert(g_fifo_allowed && g_level_iso == no_isolation, "C01.iso: enqueued tasks (which carry no isolation tag) are taken only where that is allowed: outermost level, no isolation"); }
+    return obtain(true, false, s != &A.my_fifo_task_stream); }
+static task *disp_steal_or_get_critical(struct task_dispatcher *d, execution_data_ext *ed, struct arena *a, unsigned idx, struct rnd *r, isolation_type iso, bool ca) { __CPROVER_assert(iso == g_level_iso, "C01.iso: stealing respects the isolation level of this dispatch level"); return obtain(true, false, true); }
+#define LOOP_ros_1 __CPROVER_assigns(t, g_hand, g_hand_ctx, g_hand_iso, g_hand_bypass, g_hand_resume, g_seq, g_obtained, g_respawned, g_waiter_stop, g_fifo_asked, ed->context, ed->isolation) \
+  __CPROVER_loop_invariant(t == NULL && g_hand == NULL && g_obtained == 0)
+#include "dispatch_ros.inc"
+void h_receive_or_steal(void) {
+    world(); execution_data_ext *ed = &DISP.m_execute_data_ext; ed->context = &CTXS[0]; ed->isolation = nondet_size_t(); g_fifo_allowed = nondet_bool(); g_fifo_asked = 0;
+    task *r = disp_receive_or_steal_task(&DISP, &TD, ed, &WAITER, g_level_iso, g_fifo_allowed, nondet_bool());
+    OBLIGATION(r == g_hand && g_obtained == (r != NULL ? 1 : 0), "C01.once: receive_or_steal_task takes at most one task out of the mailbox / streams / other pools and returns exactly that task - nothing fetched is dropped");
+    OBLIGATION(r == NULL || (ed->context == g_hand_ctx && ed->isolation == g_hand_iso), "C01.once: the execution data is switched to the context and isolation tag of the task about to run (its group's cancellation state decides between execute and cancel)");
+    OBLIGATION((r == NULL) == g_waiter_stop, "C01.wait: the search is given up empty-handed only because the waiter said so (for a waiting thread: the wait context has no reference left)");
+    OBLIGATION(!TD.my_inbox.idle, "C01.mail: the thread does not stay advertised as idle once it leaves the search (thieves leave mailed proxies to an idle recipient)");
+    VACUITY_CASE(r != NULL, "task found"); VACUITY_CASE(r == NULL, "waiter stops");
+    VACUITY_END();
+}
+#endif
+
+#ifdef DISP_MAIN
+#define CONTEXT_GUARD_SET(c) ((void)0)
+#define TGC_itt_caller(c) ((void *)0)
+static bool TGC_is_group_execution_cancelled(struct tgc *c) {
+    __CPROVER_assert(g_hand != NULL && (g_hand_bypass || g_hand_resume || c == g_hand_ctx), "C01.once: whether a task is executed or cancelled is decided by the cancellation state of its own group (bypassed tasks are taken to be of the group of the task that returned them)");
+    g_cancel_read = nondet_bool(); g_cancel_read_valid = true; return g_cancel_read; }
+static task *run_(task *t, execution_data_ext *ed, bool cancel) {
+    __CPROVER_assert(t != NULL && t == g_hand, "C01.once: the task dispatched is the task in hand");
+    __CPROVER_assert(g_cancel_read_valid && g_cancel_read == cancel, "C01.once: a task is cancelled (skipped) exactly if its group was seen cancelled just before, and executed otherwise");
+    __CPROVER_assert(ed == &DISP.m_execute_data_ext, "C01.glue: the task is given the dispatcher's execution data");
+    bool was_resume = g_hand_resume; g_dispatched++; if (cancel) g_cancelled++; else g_executed++; g_hand = NULL; g_cancel_read_valid = false;
+    return was_resume ? (task *)NULL : obtain(true, true, false);        /* the task may return a successor to run next (bypass); a resume task (C20) never does */
+}
+#define TASK_execute(t, ed) run_((t), (ed), false)
+#define TASK_cancel(t, ed) run_((t), (ed), true)
+static bool SLOT_is_task_pool_published(struct aslot *s) { return nondet_bool(); }
+static task *SLOT_get_task(struct aslot *s, execution_data_ext *ed, isolation_type iso) { __CPROVER_assert(s == &SLOT && iso == g_level_iso, "C01.iso: the own pool is searched under the isolation level of this dispatch level"); task *r = obtain(true, false, true); if (r) ed->affinity_slot = nondet_ushort(); return r; }
+task *disp_receive_or_steal_task(struct task_dispatcher *d, struct thread_data *tls, execution_data_ext *ed, waiter_t *w, isolation_type iso, bool fifo, bool ca) {      /* contract: job dispatch.receive_or_steal */
+    __CPROVER_assert(d == &DISP && tls == &TD && w == &WAITER && iso == g_level_iso, "C01.glue: the search for work runs for this thread, this waiter, this isolation level");
+    task *r = obtain(true, false, false);
+    if (r) { g_hand_resume = nondet_bool();                                   /* from the resume stream / self recall: a resume task; from mailbox, other pools, critical stream: isolation respected; fifo stream only without isolation */
+        if (!g_hand_resume && g_level_iso != no_isolation) g_hand_iso = g_level_iso; ed->context = g_hand_ctx; ed->isolation = g_hand_iso; g_waiter_stop = false; } else g_waiter_stop = true;
+    return r;
+}
+static bool g_left;
+#define MAIN_LOOP_LEFT(t) do { g_left = true; __CPROVER_assert((t) == NULL && g_hand == NULL, "C01.once: the dispatch loop is not left with a task in hand"); } while (0)
+#define LOOP_VARS t, g_hand, g_hand_ctx, g_hand_iso, g_hand_bypass, g_hand_resume, g_seq, g_obtained, g_dispatched, g_respawned, g_executed, g_cancelled, g_waiter_stop, g_cancel_read, g_cancel_read_valid, ed->context, ed->isolation, ed->affinity_slot, ed->original_slot
+#define COUNT_INV (g_obtained == g_dispatched + g_respawned + (g_hand != NULL ? 1UL : 0UL) && g_dispatched == g_executed + g_cancelled)      /* unsigned, modulo 2^64 */
+#define CTX_INV (t == NULL || g_hand_bypass || g_hand_resume || ed->context == g_hand_ctx)
+#define ISO_INV (t == NULL || g_hand_resume || g_level_iso == no_isolation || ed->isolation == g_level_iso)
+#define LOOP_main_1 __CPROVER_assigns(LOOP_VARS) __CPROVER_loop_invariant(t == g_hand && (g_waiter_stop ? t == NULL : 1) && COUNT_INV && ISO_INV && CTX_INV && !g_cancel_read_valid)
+#define LOOP_main_2 __CPROVER_assigns(LOOP_VARS) __CPROVER_loop_invariant(t == g_hand && (g_waiter_stop ? t == NULL : 1) && COUNT_INV && ISO_INV && CTX_INV && !g_cancel_read_valid)
+#include "dispatch_main.inc"
+void h_main_loop(void) {
+    world(); execution_data_ext *ed = &DISP.m_execute_data_ext; struct dl_guard guard; guard.old_properties.fifo_tasks_allowed = nondet_bool(); guard.old_properties.outermost = nondet_bool(); g_left = false;
+    /* local_wait_for_all(t, waiter): t is the task execute_and_wait was given (run_and_wait, parallel algorithms' root) or nullptr (wait) */
+    task *t0 = obtain(true, false, true); ed->context = t0 ? g_hand_ctx : NULL; ed->isolation = g_level_iso; ed->original_slot = TD.my_arena_index; ed->affinity_slot = no_slot; ed->task_disp = &DISP;
+    task *r = disp_main_loop(&DISP, t0, &WAITER, ed, g_level_iso, nondet_bool(), &guard);
+    OBLIGATION(r == NULL && g_left && g_hand == NULL, "C01.once: with an external waiter the loop ends without a task in hand (nothing taken out of a container is left behind unexecuted)");
+    OBLIGATION(g_obtained == g_dispatched + g_respawned && g_dispatched == g_executed + g_cancelled, "C01.once: every task that came into this thread's hands - from the caller, a bypass pointer, the own pool, the mailbox, a stream, a victim's pool - was executed or cancelled exactly once, or put back by a spawn when a critical task displaced it");
+    OBLIGATION(g_waiter_stop, "C01.wait: the dispatch loop of a waiting thread is left only after the waiter saw its wait context without any reference - every unit submitted to the group has finished");
+    VACUITY_CASE(g_executed > 1 && g_cancelled > 0, "several tasks, some cancelled"); VACUITY_CASE(g_respawned > 0, "a task displaced by a critical one");
+    VACUITY_END();
+}
+#endif
+
+#ifdef DISP_SRC
+/* the thin layers between the dispatch loop and the containers */
+#define pool_bit ((intptr_t)1)
+#define mailbox_bit ((intptr_t)2)
+#define any_slot ((slot_id)0xfffe)
+#define EmptyTaskPool ((task **)0)
+static struct aslot VICTIM; static unsigned g_limit_seen, g_me, g_victim_k; static bool g_hand_proxy, g_extracted, g_proxy_empty; static int g_proxy_freed; static slot_id g_proxy_slot; static task *g_proxy;
+#define ATOMIC_LOAD(x) (x)
+static unsigned short STUB_random_get(struct rnd *r) { return nondet_ushort(); }
+static struct aslot *arena_slot_(struct arena *a, size_t k) { __CPROVER_assert(k < a->my_limit, "C01.steal: the victim is one of the arena's slots in use (index below my_limit)"); g_victim_k = (unsigned)k; return &VICTIM; }
+#define ARENA_SLOT(a, k) arena_slot_((a), (k))
+static task *SLOT_steal_task(struct aslot *v, struct arena *a, isolation_type iso, size_t k) { __CPROVER_assert(v == &VICTIM && a == &A && k == g_victim_k && iso == g_level_iso, "C01.steal: steal_task runs on the chosen victim, under the thief's isolation level");
+    task *r = obtain(true, false, true); g_hand_proxy = r != NULL && nondet_bool(); g_extracted = false; g_proxy = g_hand_proxy ? r : NULL; g_proxy_slot = nondet_ushort(); return r; }
+#define TASK_IS_PROXY(t) ((t) == g_hand && g_hand_proxy)
+static task *STUB_proxy_extract_task(struct task_proxy *tp, intptr_t from_bit) {
+    __CPROVER_assert(from_bit == pool_bit, "C01.proxy: a proxy that came out of a task pool is claimed from the pool side (extract_task<pool_bit>)");
+    __CPROVER_assert((task *)tp == g_hand && g_hand_proxy && !g_extracted, "C01.once: the task is extracted from the stolen proxy, once");
+    g_extracted = true; g_proxy_empty = nondet_bool(); g_hand = NULL; g_obtained--;                      /* the proxy is not itself a task to run ... */
+    if (g_proxy_empty) return NULL;
+    task *inner = obtain(false, false, true); return inner;                                               /* ... it yields the task it stands for, unless the mailbox side was faster */
+}
+static void STUB_delete_proxy(struct task_proxy *tp) { __CPROVER_assert((task *)tp == g_proxy && g_extracted && g_proxy_empty, "C01.proxy: the thief frees a proxy only after it found it empty; a proxy whose task it took is left for the mailbox side to free"); g_proxy_freed++; }
+#define STREAM_empty(s) nondet_bool()
+static task *STREAM_pop(struct stream *s, unsigned *hint) { return obtain(true, false, true); }
+#define INBOX_empty(ib) nondet_bool()
+static task *disp_get_mailbox_task(struct task_dispatcher *d, struct inbox *ib, execution_data_ext *ed, isolation_type iso) { __CPROVER_assert(ib == &TD.my_inbox && iso == g_level_iso, "C01.mail: own inbox, own isolation level"); return obtain(true, false, true); }
+static struct task_proxy *tp_of(task *t) { return (struct task_proxy *)t; }
+#include "sources.inc"
+unsigned IN_limit, IN_me;
+static void src_world(void) { world(); A.my_limit = IN_limit = nondet_unsigned(); g_me = IN_me = nondet_unsigned(); __CPROVER_assume(A.my_limit >= 1 && g_me < A.my_limit); VICTIM.task_pool = nondet_ptr(); g_proxy_freed = 0; g_hand_proxy = false; g_proxy = NULL;
+    for (int i = 0; i < 8; ++i) TOKMEM[i].slot = nondet_ushort(); }
+void h_arena_steal(void) {
+    src_world(); execution_data_ext *ed = &DISP.m_execute_data_ext; slot_id aff0 = ed->affinity_slot = nondet_ushort();
+    task *r = arena_steal_task(&A, g_me, &TD.my_random, ed, g_level_iso);
+    OBLIGATION(r == g_hand && g_obtained == (r != NULL ? 1UL : 0UL), "C01.once: arena::steal_task returns exactly the task it took out of the victim's pool (or the task the stolen proxy stood for) - nothing stolen is dropped");
+    OBLIGATION(g_proxy == NULL || !g_extracted || (g_proxy_empty ? (r == NULL && g_proxy_freed == 1) : (r != NULL && g_proxy_freed == 0)), "C01.proxy: a stolen proxy yields its task, or - if the mailbox side had taken the task already - is freed exactly once by the thief and nothing is returned");
+    OBLIGATION(g_proxy == NULL || g_extracted, "C01.proxy: a stolen proxy is never returned as if it were a task");
+    OBLIGATION(r == NULL || (ed->original_slot == (slot_id)g_victim_k && ed->affinity_slot == (g_proxy != NULL ? ((struct task_proxy *)g_proxy)->slot : any_slot)), "C01.proxy: the execution data records the victim slot and the affinity the task was mailed with");
+    VACUITY_CASE(r != NULL && g_proxy != NULL, "task out of a stolen proxy"); VACUITY_CASE(g_proxy_freed == 1, "empty proxy freed"); VACUITY_CASE(r != NULL && g_proxy == NULL, "plain task");
+    VACUITY_END();
+}
+void h_sources(void) {
+    src_world(); execution_data_ext *ed = &DISP.m_execute_data_ext; ed->context = &CTXS[0]; ed->isolation = g_level_iso; unsigned hint = nondet_unsigned(); unsigned which = nondet_unsigned() % 3; bool ca = nondet_bool();
+    task *r = which == 0 ? disp_get_inbox_or_critical_task(&DISP, ed, &TD.my_inbox, g_level_iso, ca) : which == 1 ? disp_get_stream_or_critical_task(&DISP, ed, &A, &A.my_fifo_task_stream, &hint, g_level_iso, ca)
+            : disp_steal_or_get_critical(&DISP, ed, &A, g_me, &TD.my_random, g_level_iso, ca);
+    OBLIGATION(r == g_hand && g_obtained == g_respawned + (r != NULL ? 1UL : 0UL), "C01.once: each of get_inbox_or_critical_task / get_stream_or_critical_task / steal_or_get_critical returns exactly the one task it ended up holding; a stolen task displaced by a critical one was re-spawned, none is dropped");
+    OBLIGATION(which != 2 || r == NULL || g_respawned == 1 || (ed->context == g_hand_ctx && ed->isolation == g_hand_iso), "C01.once: a stolen task comes with its own context and isolation tag in the execution data");
+    VACUITY_CASE(which == 2 && g_respawned == 1, "stolen task displaced"); VACUITY_CASE(which == 0 && r != NULL, "mail"); VACUITY_CASE(which == 1 && r != NULL, "stream");
+    VACUITY_END();
+}
+#endif
